@@ -202,6 +202,13 @@ func layersOf(s *Spec) []Layer {
 		return []Layer{stackL(s), mk(s, "*errutil.withPrefix", Prefix, fmtText(s))}
 	case "withmsg":
 		return []Layer{mk(s, "*errutil.withPrefix", Prefix, S(0))}
+	case "wrapfgosyntax":
+		sec := mk(s, "*secondary.withSecondaryError", Transparent, "")
+		sec.Hidden = s.X
+		// The message of a library error is built through redact, which
+		// refuses %#v for an error argument: "%!v(<type>)".
+		dump := "%!v(" + Chain(s.X[0])[0].Typ + ")"
+		return []Layer{stackL(s), sec, mk(s, "*errutil.withPrefix", Prefix, "lit "+S(0)+" e="+dump)}
 	case "wrapferr":
 		sec := mk(s, "*secondary.withSecondaryError", Transparent, "")
 		sec.Hidden = s.X
@@ -281,6 +288,14 @@ func layersOf(s *Spec) []Layer {
 		return []Layer{l}
 	case "handledmsg":
 		l := mk(s, "*barriers.barrierErr", Leaf, S(0))
+		l.Hidden = []*Spec{s.C}
+		return []Layer{l}
+	case "handledmsgf", "handledsafemsg":
+		l := mk(s, "*barriers.barrierErr", Leaf, fmtText(s))
+		l.Hidden = []*Spec{s.C}
+		return []Layer{l}
+	case "handledmsgf0":
+		l := mk(s, "*barriers.barrierErr", Leaf, "lit "+S(0))
 		l.Hidden = []*Spec{s.C}
 		return []Layer{l}
 	case "handleddomain":
